@@ -113,21 +113,24 @@ def lastLB : Bytes → Option Nat
     | some i => some (i + 1)
     | none => if isLB c then some 0 else none
 
+/-- can `rest` (the text after the last line break) still become `--boundary`
+followed by `--`, padding or a line break? -/
+def maybeDelim (mk rest : Bytes) : Bool :=
+  if rest.length ≤ mk.length then rest.isPrefixOf mk
+  else if mk.isPrefixOf rest then
+    (rest.drop mk.length = [45] || (rest.drop mk.length).all isBlank)
+  else false
+
+/-- start of the line break that ends at index `i` (a CRLF pair is one line break) -/
+def lbStart (buf : Bytes) (i : Nat) : Nat :=
+  if 0 < i && buf[i - 1]? = some 13 && buf[i]? = some 10 then i - 1 else i
+
 /-- `MultipartDecoder.last_newline()` (as repaired): the index from which the
 buffer may still be the beginning of a delimiter line. -/
 def holdBack (mk : Bytes) (buf : Bytes) : Nat :=
   match lastLB buf with
   | none => buf.length
-  | some i =>
-    let rest := buf.drop (i + 1)
-    let i' := if 0 < i && buf[i - 1]? = some 13 && buf[i]? = some 10 then i - 1 else i
-    let maybe :=
-      if rest.length ≤ mk.length then rest.isPrefixOf mk
-      else if mk.isPrefixOf rest then
-        let t := rest.drop mk.length
-        t = [45] || t.all isBlank
-      else false
-    if maybe then i' else buf.length
+  | some i => if maybeDelim mk (buf.drop (i + 1)) then lbStart buf i else buf.length
 
 /-! ### UTF-8 (strict, as CPython) and `safe_decode` -/
 
@@ -370,35 +373,50 @@ def headerEvent (cs : Charset) (raw : Bytes) : Ev :=
       | some fname => .file (lookup nameKey extra) fname headers
       | none => .field (lookup nameKey extra) headers
 
+/-- PREAMBLE branch of `next_event()` -/
+def evPreamble (b : Bytes) (d : Dec) : Dec × Ev :=
+  match delimSearch true (marker b) d.buf with
+  | some (s, e, fin) =>
+    ({ d with st := if fin then .epilogue else .part, buf := d.buf.drop e }, .preamble (d.buf.take s))
+  | none => (d, .needData)
+
+/-- PART branch -/
+def evPart (cs : Charset) (d : Dec) : Dec × Ev :=
+  match blankLineSearch d.buf with
+  | some (s, e) =>
+    let ev := headerEvent cs (d.buf.take s)
+    if ev = .malformed then ({ d with buf := d.buf.drop e }, .malformed)
+    else ({ d with st := .data, buf := d.buf.drop e }, ev)
+  | none => (d, .needData)
+
+/-- the delimiter search of the DATA branch (guarded by the cheap `find`) -/
+def dataSearch (b : Bytes) (buf : Bytes) : Option (Nat × Nat × Bool) :=
+  if (findSub (marker b) buf).isNone then none else delimSearch false (marker b) buf
+
+/-- DATA branch -/
+def evData (b : Bytes) (d : Dec) : Dec × Ev :=
+  match dataSearch b d.buf with
+  | some (s, e, fin) =>
+    ({ d with st := if fin then .epilogue else .part, buf := d.buf.drop e }, .data (d.buf.take s) false)
+  | none =>
+    if holdBack (marker b) d.buf = 0 then (d, .needData)
+    else ({ d with buf := d.buf.drop (holdBack (marker b) d.buf) },
+          .data (d.buf.take (holdBack (marker b) d.buf)) true)
+
+/-- `next_event()` before the final "complete but nothing to report" test -/
+def rawEvent (b : Bytes) (cs : Charset) (d : Dec) : Dec × Ev :=
+  match d.st with
+  | .preamble => evPreamble b d
+  | .part => evPart cs d
+  | .data => evData b d
+  | .epilogue =>
+    if d.complete then ({ d with st := .complete, buf := [] }, .epilogue d.buf) else (d, .needData)
+  | .complete => (d, .needData)
+
 /-- `next_event()` -/
 def nextEvent (b : Bytes) (cs : Charset) (d : Dec) : Dec × Ev :=
-  let (d', ev) : Dec × Ev :=
-    match d.st with
-    | .preamble =>
-      match delimSearch true (marker b) d.buf with
-      | some (s, e, fin) =>
-        ({ d with st := if fin then .epilogue else .part, buf := d.buf.drop e }, .preamble (d.buf.take s))
-      | none => (d, .needData)
-    | .part =>
-      match blankLineSearch d.buf with
-      | some (s, e) =>
-        match headerEvent cs (d.buf.take s) with
-        | .malformed => ({ d with buf := d.buf.drop e }, .malformed)
-        | ev => ({ d with st := .data, buf := d.buf.drop e }, ev)
-      | none => (d, .needData)
-    | .data =>
-      let found := if (findSub (marker b) d.buf).isNone then none else delimSearch false (marker b) d.buf
-      match found with
-      | some (s, e, fin) =>
-        ({ d with st := if fin then .epilogue else .part, buf := d.buf.drop e }, .data (d.buf.take s) false)
-      | none =>
-        let i := holdBack (marker b) d.buf
-        if i = 0 then (d, .needData)
-        else ({ d with buf := d.buf.drop i }, .data (d.buf.take i) true)
-    | .epilogue =>
-      if d.complete then ({ d with st := .complete, buf := [] }, .epilogue d.buf) else (d, .needData)
-    | .complete => (d, .needData)
-  if d'.complete && ev = .needData then (d', .malformed) else (d', ev)
+  if (rawEvent b cs d).1.complete && (rawEvent b cs d).2 = .needData then ((rawEvent b cs d).1, .malformed)
+  else rawEvent b cs d
 
 /-! ### the stream helper -/
 
